@@ -108,6 +108,37 @@ class Code38(Code3):
         if type(self) == Code38:
             self.check()
 
+    def encode_lineno_tab(self):
+        """
+        Convert a list of (offset, line_number) pairs into co_lnotab.
+        From Python 3.6 on the line increment is a *signed* byte
+        (Objects/lnotab_notes.txt): a line gap above 127 or below -128 is
+        split, the address increment going with the first chunk.
+        """
+        co_lnotab = b""
+
+        prev_line_number = self.co_firstlineno
+        prev_offset = 0
+        for offset, line_number in self.co_lnotab:
+            offset_diff = offset - prev_offset
+            line_diff = line_number - prev_line_number
+            prev_offset = offset
+            prev_line_number = line_number
+            while offset_diff >= 256:
+                co_lnotab += bytearray([255, 0])
+                offset_diff -= 255
+            while line_diff > 127:
+                co_lnotab += bytearray([offset_diff, 127])
+                offset_diff = 0
+                line_diff -= 127
+            while line_diff < -128:
+                co_lnotab += bytearray([offset_diff, 128])
+                offset_diff = 0
+                line_diff += 128
+            co_lnotab += bytearray([offset_diff, line_diff & 0xFF])
+
+        self.co_lnotab = co_lnotab
+
     def to_native(self) -> types.CodeType:
         if not (3, 8) <= PYTHON_VERSION_TRIPLE < (3, 10):
             raise TypeError(
